@@ -82,6 +82,31 @@ def r1_helpers(program, rep):
     if len(rets) != 1:
         raise AnalysisError("align: expected one return")
     node = fl.cfg.node_of(rets[0])
+    # by cases when the result is the quotient, plus one if there is a
+    # remainder (a merged value)
+    from ..casesplit import remainder_cases, sym_term
+    TAc = Terms(fn)
+    cases_ = remainder_cases(TAc, fl, rets[0].value,
+                             TAc.cfg.node_of(rets[0]), node)
+    if cases_ is not None and len(cases_) == 2:
+        V_, A_ = Poly.atom(v), Poly.atom(al)
+        okm_, okb_ = True, True
+        for extra_, tv_ in cases_:
+            r_ = sym_term(fl, tv_, node)
+            okm_ = okm_ and bool(r_.t) and all(
+                al in m_ for m_ in r_.t if m_ != ()) and () not in r_.t
+            okb_ = okb_ and fl.prove(node, [le(V_, r_), le(r_, V_ + A_ - 1)],
+                                     extra=extra_, use_facts=False)
+        rep.check(okm_, "C05-R1", inst, "align returns alignment * <integer>",
+                  construct="align multiple (by cases)", node=fn)
+        rep.check(okb_, "C05-R1", inst, "value <= align(value, alignment) "
+                  "<= value + alignment - 1 for every alignment >= 1",
+                  construct="align bounds (by cases)", node=fn,
+                  fail="cannot prove value <= align(value, alignment) <= "
+                       "value + alignment - 1 in both cases of the "
+                       "remainder test")
+        rep.assume("alignments are >= 1")
+        return
     # (through the value term of the result, so that temporaries and
     # divmod(...) read like the // they stand for)
     from ..terms import reify as _reify, plain as _plain
@@ -348,6 +373,15 @@ class _Model(object):
         return src
 
 
+def _without(t, old):
+    """``t`` with every occurrence of the sub-term ``old`` blanked."""
+    if t == old:
+        return ("blank",)
+    if not isinstance(t, tuple) or not t or t[0] == "const":
+        return t
+    return tuple(_without(x, old) if isinstance(x, tuple) else x for x in t)
+
+
 class _Monitor(Client):
     """State: have (a proposal was made), clean (no overlap test of it came
     out true), covered (sources scanned completely for it), bounded, pending
@@ -363,6 +397,7 @@ class _Monitor(Client):
         self.n_commit_states = 0
         self.unknown_ptr_store = []
         self.unknown_tests = []
+        self.ptr_tested_when_dirty = False
 
     def start(self):
         return (False, True, frozenset(), False, False, False, False,
@@ -401,6 +436,11 @@ class _Monitor(Client):
                                  True), (mk_cmp("LtE", m.P[2][1], m.CAP),
                                          True)):
                     info = ("bounded",)
+                elif any(st_ == m.PTR for st_ in subterms(
+                        _without(t, m.P))):
+                    # a test on the pointer table itself (e.g. "has the
+                    # pointer moved since this proposal was made?")
+                    info = ("ptrtest",)
             elif n.kind == "stmt" and isinstance(a, ast.Assign):
                 tg = a.targets[0]
                 if isinstance(tg, ast.Subscript) and len(a.targets) == 1:
@@ -430,6 +470,10 @@ class _Monitor(Client):
             return mon
         have, clean, cov, bounded, pending, broken, hitcur, owed = mon
         k = info[0]
+        if k == "ptrtest":
+            if not clean:
+                self.ptr_tested_when_dirty = True
+            return mon
         if k == "propose":
             if owed[0] and not owed[1]:
                 self.problem("owed", n, view)
@@ -697,6 +741,13 @@ def r2_r3(program, rep):
                             mon.unknown_tests[0].lineno)
     pr = mon.problems
     cnode = m.commits[0][1]
+    if "dirty" in pr and mon.ptr_tested_when_dirty:
+        # after an overlap the code consults the pointer table (has the
+        # pointer been moved on?): whether that test sends every such path
+        # back to a new proposal is not followed by the path model
+        raise AnalysisError("allocate: after an overlap the retry loop "
+                            "tests the pointer table to decide whether to "
+                            "propose again; that form is not analysed")
 
     def at(kind):
         n = pr.get(kind)
